@@ -127,6 +127,10 @@ func C02(tier string) int {
 			}
 		}
 		ops2 = append(ops2, SOp{Kind: "att", Ents: []Ent{{Key: k, S: 0, T: 1, Root: 1}}}, SOp{Kind: "att", Ents: []Ent{{Key: k, S: 1, T: 2, Root: 2}}})
+		// The same proposals asked of a second instance started on the same storage directory.
+		for _, slot := range []uint64{0, 1} {
+			ops2 = append(ops2, SOp{Kind: "twin-prop", Ents: []Ent{{Key: k, Slot: slot, Root: 2}}})
+		}
 		// The same proposals served while the store refuses writes.
 		for _, slot := range []uint64{0, 1} {
 			ops2 = append(ops2, SOp{Kind: "prop", Fault: "write", Ents: []Ent{{Key: k, Slot: slot, Root: 1}}})
@@ -159,7 +163,7 @@ func C02(tier string) int {
 		"traces_validated_against_impl": r1.Transitions + r2.Transitions,
 		"evaluations":                   r1.Transitions + r2.Transitions,
 		"distinct_nontrivial":           r1.States + r2.States,
-		"rule":                          "BFS over the real signer stack (a history may begin with an old-format record for slot 0, 1 or 5; on two keys proposals at slots 0 and 1 are also served while the store refuses writes); a state is (raw records of the keys, highest released proposal slot per key, set of released attestations); every distinct state is non-trivial; invariant: per key the slots of released proposals strictly increase in issue order; every released signature of a new transition must be the addressed account's signature over the independently computed signing root",
+		"rule":                          "BFS over the real signer stack (a history may begin with an old-format record for slot 0, 1 or 5; on two keys proposals at slots 0 and 1 are also served while the store refuses writes, and asked of a second instance started on the same storage directory while the first is running); a state is (raw records of the keys, highest released proposal slot per key, set of released attestations); every distinct state is non-trivial; invariant: per key the slots of released proposals strictly increase in issue order; every released signature of a new transition must be the addressed account's signature over the independently computed signing root",
 		"samples":                       append(st1.samples.List(), st2.samples.List()...),
 		"exhaustive":                    !r1.BudgetHit && !r2.BudgetHit,
 		"single_key_closure": map[string]any{"ops_per_state": len(ops1) + 1, "slots": fmtU(E), "states": r1.States, "transitions": r1.Transitions,
